@@ -62,6 +62,24 @@ fn differential<T: ChallengeInput + Serialize + DeserializeOwned>(c: &mut Ctx, t
             c.count("response_atoms_skipped", 1);
             continue;
         }
+        // a point is also replaced by its negation (same x-coordinate, other sign bit)
+        if matches!(a.kind, Kind::G1 | Kind::G2) {
+            let mut neg = t.atom_bytes(a).to_vec();
+            if neg[0] & 0x40 == 0 {
+                neg[0] ^= 0x20;
+                if let Ok(vn) = dec::<T>(&t.with_replaced(a, &neg)) {
+                    c.eval();
+                    c.distinct(&format!("lib/{}/{}/negated", tname, a.fpath));
+                    c.count("library_atoms_negated", 1);
+                    if ch_of(&vn) == base {
+                        c.violation(
+                            &format!("C12 challenge-unchanged level=library type={} atom={} replacement=negation", tname, a.fpath),
+                            json!({"type": tname, "atom": a.path, "original": hex(t.atom_bytes(a)), "replacement": hex(&neg)}),
+                        );
+                    }
+                }
+            }
+        }
         let Some(alt) = alt_valid(a.kind, t.atom_bytes(a), rng) else { continue };
         let bytes = t.with_replaced(a, &alt);
         let v2: T = match dec(&bytes) {
@@ -412,6 +430,23 @@ fn context_cases(c: &mut Ctx) {
         }
         c.count("context_inputs_compared", corpus.len() as i64);
     });
+    // sequences of small scalars feed distinct transcripts: (a, 0) and (0, a), (0x0102, 0x03) and (0x01, 0x0203)
+    // are different first messages (balances, amounts, digits are such values)
+    c.case("builder/small-scalar-sequences", |c| {
+        let vals: [u64; 9] = [0, 1, 2, 3, 255, 256, 257, 0x0102, 0x0203];
+        let mut seen: std::collections::BTreeMap<[u8; 32], (u64, u64)> = Default::default();
+        for &a in &vals {
+            for &b in &vals {
+                c.eval();
+                c.distinct(&format!("small-scalars/{}/{}", a, b));
+                let ch = ChallengeBuilder::new().with(&Scalar::from(a)).with(&Scalar::from(b)).finish().to_scalar().to_bytes();
+                if let Some(prev) = seen.insert(ch, (a, b)) {
+                    c.violation("C12 challenge-unchanged level=library type=Scalar-sequence", json!({"first": [prev.0, prev.1], "second": [a, b]}));
+                }
+            }
+        }
+        c.count("small_scalar_sequences_compared", (vals.len() * vals.len()) as i64);
+    });
     // both public constructors of the challenge builder start the same transcript
     c.case("builder/constructors", |c| {
         let mut rng = c.rng("builder/constructors");
@@ -703,11 +738,20 @@ fn abacus_pay(c: &mut Ctx, m: &'static Merchant, inst: usize) {
                     }
                 }
             }
-            for a in t1.atoms.iter().skip(lo).take(chunk) {
+            for (ai, a) in t1.atoms.iter().enumerate().skip(lo).take(chunk) {
                 if a.kind == Kind::Len || responses.iter().any(|r| r == &a.fpath) {
                     continue;
                 }
-                let Some(alt) = alt_valid(a.kind, t1.atom_bytes(a), &mut rng) else { continue };
+                let Some(mut alt) = alt_valid(a.kind, t1.atom_bytes(a), &mut rng) else { continue };
+                // every other point atom is replaced by its negation instead of an unrelated point
+                let mut negated = false;
+                if matches!(a.kind, Kind::G1 | Kind::G2) && ai % 2 == 0 && t1.atom_bytes(a)[0] & 0x40 == 0 {
+                    alt = t1.atom_bytes(a).to_vec();
+                    alt[0] ^= 0x20;
+                    negated = true;
+                    c.count("abacus_atoms_negated", 1);
+                }
+                let _ = negated;
                 let bytes = t1.with_replaced(a, &alt);
                 c.eval();
                 c.distinct(&format!("abacus/PayProof/{}", a.fpath));
